@@ -74,7 +74,25 @@ func runSeeded(repo string, only []string) int {
 				}
 			}
 			if len(fired) == 0 {
-				return "NOT DETECTED by the checks of " + prop
+				extra := ""
+				if os.Getenv("SEEDED_ALL") != "" {
+					// triage aid: which rules registered under other properties report this change?
+					var sib []string
+					for _, rule := range allRules {
+						if rule.ThoroughOnly {
+							continue
+						}
+						rr := execRule(p, rule, "quick")
+						for _, o := range rr.Obls {
+							if o.Status != Discharged {
+								sib = append(sib, o.Key+"["+strings.Join(rule.Props, ",")+"]")
+								break
+							}
+						}
+					}
+					extra = " (other rules: " + strings.Join(sib, " ") + ")"
+				}
+				return "NOT DETECTED by the checks of " + prop + extra
 			}
 			return "ok " + strings.Join(fired, " ")
 		}()
